@@ -234,7 +234,7 @@ def run(prop, a):
     # and constraint results) x a scenario in which that matters: a rounding constraint on a start far from the origin,
     # an integer box replaced by a fractional sub-box before the first Step or between iterations
     sgrid = [(k, sp, sc) for k in ("DE", "DE2", "NM", "PW") for sp in ("int", "intarray", "tuple")
-             for sc in ("round-far", "round-far/b", "round-far/c", "rebox-shifted-0", "rebox-negshift-2", "rebox-unit-3", "rebox-shifted-2")]
+             for sc in ("round-far", "round-far/b", "round-far/c", "infstart-pin", "infstart-round", "infstart-tie", "rebox-shifted-0", "rebox-negshift-2", "rebox-unit-3", "rebox-shifted-2")]
     rng.shuffle(sgrid)
     nsgrid = 0 if light else len(sgrid)
     for i in range(nruns):
@@ -253,7 +253,12 @@ def run(prop, a):
                        dim=max(2, cfg["dim"]), inplace=False, steps=7, x0out=False)
             if cfg["cost"] in ("infwall", "vector"):
                 cfg["cost"] = "sphere"
-            if sc.startswith("round-far"):
+            if sc.startswith("infstart"):
+                # every energy the solver sees in its first iterations is +inf (start deep behind the wall of 'infwall_last');
+                # stops after 1, 2, 3 iterations
+                cfg.update(cost="infwall_last", cons=sc.split("-")[1], box="none", far=False, deepinf=True, box2_at=None, pen="none",
+                           steps=1 + (i % 3), init="random", dim=3)
+            elif sc.startswith("round-far"):
                 cfg.update(cons="round", box="none", far=True, box2_at=None, pen="none")
             else:
                 _, bx, at2 = sc.split("-")
